@@ -22,7 +22,7 @@ type defsLine struct {
 	Def        []string `json:"def"`
 	Verdict    string   `json:"verdict"`
 	VStrict    string   `json:"verdict_strict"`
-	VGroup     string   `json:"verdict_group"`        // the definition as the prefix of a group around the plain route "/a"
+	VGroup     string   `json:"verdict_group"` // the definition as the prefix of a group around the plain route "/a"
 	VGroupS    string   `json:"verdict_group_strict"`
 	Method     *string  `json:"method"`
 	Text       string   `json:"text"`
